@@ -11,6 +11,8 @@ ED = "src/clikit/api/event/event_dispatcher.py"
 MUTANTS = {}
 
 MUTANTS["C12"] = [
+    M("F25-config-event-no-super", "src/clikit/api/event/config_event.py", "        super(ConfigEvent, self).__init__()\n\n", "", expect="C12-R10"),
+    M("pre-handle-event-no-super", "src/clikit/api/event/pre_handle_event.py", "        super(PreHandleEvent, self).__init__()\n", "        pass\n", expect="C12-R10"),
     M("no-invalidation", ED,
       "        if event_name in self._sorted:\n            del self._sorted[event_name]\n", "", expect="C12-R1"),
     M("insert-front", ED, "self._listeners[event_name][priority].append(listener)",
@@ -173,6 +175,7 @@ MUTANTS["C04"] = [
 ]
 
 MUTANTS["C20"] = [
+    M("F26-no-tokenizer-fallback", "src/clikit/ui/components/exception_trace.py", "        except (tokenize.TokenError, SyntaxError):\n", "        except ZeroDivisionError:\n", expect="C20-R9"),
     M("ignore-filter-at-debug", XTR, "                and re.match(self._ignore, frame.filename)\n                and not io.is_debug()\n", "                and re.match(self._ignore, frame.filename)\n", expect="C20-R2"),
     M("marker-off-by-one", XTR, "                if mark_line == i + 1:\n                    snippet = marker", "                if mark_line == i:\n                    snippet = marker", expect="C20-R3"),
     M("numbers-from-zero", XTR, 'line_number = "{:>{}}".format(i + 1, max_line_length)', 'line_number = "{:>{}}".format(i, max_line_length)', expect="C20-R3"),
@@ -404,6 +407,7 @@ MUTANTS["C11"] = [
 PBR = "src/clikit/ui/components/progress_bar.py"
 
 MUTANTS["C15"] = [
+    M("F24-rows-as-lines", "src/clikit/api/io/section_output.py", "            lines = sum(self._get_row_count(line) for line in removed_content[::2])\n", "", expect="C15-R6"),
     M("control-code-on-plain-arm", SEC, "        if not self.supports_ansi() and not self._formatter.force_ansi():\n            return super(SectionOutput, self).write(",
       "        if not self.supports_ansi() and not self._formatter.force_ansi():\n            self._pop_stream_content_until_current_section()\n            return super(SectionOutput, self).write(", expect="C15-R1"),
     M("clear-unguarded", SEC, "        if (\n            not self._content\n            or not self.supports_ansi()\n            and not self._formatter.force_ansi()\n        ):\n            return\n", "        if not self._content:\n            return\n", expect="C15-R1"),
